@@ -254,7 +254,8 @@ def make_subclasses():
             """Overridden."""
             super().lock()
 
-    return SubA, SubB, SubC, SubD
+    import ctrlsubs
+    return SubA, SubB, SubC, SubD, ctrlsubs.make(TaskPool)
 
 
 def new_pool(cls, size=3):
